@@ -419,6 +419,8 @@ class Repo:
     def types(self, f: FuncInfo) -> "TypeEnv":
         k = f"{f.qn}#{id(f.node)}"
         if k not in self._types_cache:
+            self._pinned = getattr(self, "_pinned", [])
+            self._pinned.append(f.node)
             self._types_cache[k] = None  # recursion guard
             self._types_cache[k] = TypeEnv(self, f)
         te = self._types_cache[k]
